@@ -47,11 +47,34 @@ func fnDiscard(ctx *cmdContext, args map[string]any) (output respValue, err erro
 	return
 }
 
-func isAbortedExecUnlocked(cs *clientState) bool {
-	for watch, id := range cs.watches {
-		// caller holds exclusive lock, so go directly to the data store for this check
-		if watch.ds.hasChangedUnlocked(watch.key, id) {
+// Does the connection watch a key of a database other than ds?
+func (cs *clientState) watchesOtherDb(ds *dataStore) bool {
+	for watch := range cs.watches {
+		if watch.ds != ds {
 			return true
+		}
+	}
+	return false
+}
+
+// The caller owns the lock of database locked. Keys watched in another database
+// (WATCH, then SELECT) are examined under that database's own lock; the caller
+// must hold multiDataStoreLock in that case (two database locks at once).
+func isAbortedExecUnlocked(cs *clientState, locked *dataStore) bool {
+	for watch, id := range cs.watches {
+		if watch.ds == locked {
+			// caller holds exclusive lock, so go directly to the data store for this check
+			if watch.ds.hasChangedUnlocked(watch.key, id) {
+				return true
+			}
+		} else {
+			other := watch.ds.newDataStoreCommand()
+			other.lock()
+			changed := watch.ds.hasChangedUnlocked(watch.key, id)
+			other.unlock()
+			if changed {
+				return true
+			}
 		}
 	}
 	return false
@@ -74,14 +97,18 @@ func fnExec(ctx *cmdContext, args map[string]any) (output respValue, err error) 
 
 	// a queued command that needs every database (FLUSHALL) takes the other
 	// database locks while this one is held; the global lock has to come first
+	needsGlobal := ctx.cs.watchesOtherDb(ctx.dsc.ds)
 	for _, cc := range *ctx.cs.cmdQueue {
 		if cc.cmdToken == "flushall" {
-			simBeforeLock(&multiDataStoreLock, "multiDataStoreLock")
-			multiDataStoreLock.Lock()
-			defer simAfterUnlock(&multiDataStoreLock, "multiDataStoreLock")
-			defer multiDataStoreLock.Unlock()
+			needsGlobal = true
 			break
 		}
+	}
+	if needsGlobal {
+		simBeforeLock(&multiDataStoreLock, "multiDataStoreLock")
+		multiDataStoreLock.Lock()
+		defer simAfterUnlock(&multiDataStoreLock, "multiDataStoreLock")
+		defer multiDataStoreLock.Unlock()
 	}
 
 	// take complete ownership of the data store
@@ -93,7 +120,7 @@ func fnExec(ctx *cmdContext, args map[string]any) (output respValue, err error) 
 	defer ctx.cs.setMultiInProgress(false)
 
 	// check the watches; if anything has changed, return null
-	if isAbortedExecUnlocked(ctx.cs) {
+	if isAbortedExecUnlocked(ctx.cs, ctx.dsc.ds) {
 		// the transaction is over: back to normal mode, nothing watched
 		ctx.cs.watches = map[watchKey]uint64{}
 		ctx.cs.cmdQueue = nil
